@@ -161,7 +161,7 @@ class C03(e1.E1Check):
             permuted = rows_permuted(self._last[0], self._last[1])
         return {"innermost": pos == lo - 1, "empty_with_regular": empty_list_of_regular(("var", T), list(tvs)),
                 "empty_inner_list": has_empty_inner(values.strip(list(tvs))), "option_of_list": option_of_list(T),
-                "arg": label.startswith("arg"), "rows_permuted": permuted, "levels_below": lo - 1 - pos}
+                "arg": label.startswith("arg"), "rows_permuted": permuted, "levels_below": lo - 1 - pos, "depth": lo}
 
     def signature(self, T, tvs, d, names, opname, args, failure):
         tvs = [e for e in tvs]
@@ -172,7 +172,7 @@ class C03(e1.E1Check):
         if failure == "value" and self._last is not None:
             permuted = rows_permuted(self._last[0], self._last[1])
         return {"innermost": pos == lo - 1, "rows_permuted": permuted, "empty_inner_list": has_empty_inner(values.strip(tvs)),
-                "levels_below": lo - 1 - pos,
+                "levels_below": lo - 1 - pos, "depth": lo,
                 "has_option": refops._has_kind(T, ("opt",)), "arg": opname.startswith("arg"),
                 "option_of_list": option_of_list(T),
                 "empty_with_regular": empty_list_of_regular(("var", T), list(tvs))}
